@@ -1,8 +1,34 @@
 (* C11 -- Minimal m-separator search is sound, complete and minimal. Statements: C11/Spec.v; model: C11/Model.v *)
 From Coq Require Import List Arith.
-From PG Require Import Base.ListSet Graph.MGraph Graph.MSep C01.Model C12.Model C12.Enum C11.Model C11.Spec
-  C11.Proofs C11.Bounded_3 C11.Bounded_4 C11.Refuted.
+From PG Require Import Base.ListSet Graph.MGraph Graph.MSep Graph.Walks C01.Model C12.Model C12.Enum C11.Model C11.Spec
+  C11.Proofs C11.Anterior C11.Sound C11.Bounded_3 C11.Bounded_4 C11.Refuted.
 Import ListNotations.
+
+(* FULL soundness, all graphs of the domain of C01, all sizes: what the search returns lies between I and R and m-separates
+   x and y in g (m-connecting paths of Graph/MSep.v).  Uses C01.Proofs.msep_correct and the anterior-restriction lemma. *)
+Theorem minsep_sound : forall g x y I R Z,
+  (U g = [] \/ ancestral_und g) -> In x (V g) -> In y (V g) -> x <> y ->
+  incl I R -> incl R (V g) -> ~ In x R -> ~ In y R ->
+  minsep_model g x y I R = Some Z ->
+  incl I Z /\ incl Z R /\ msep g [x] [y] Z.
+Proof. exact C11.Sound.minsep_sound. Qed.
+Print Assumptions minsep_sound.
+
+(* FULL soundness of the test: an accepted Z lies between I and R and m-separates x and y in g *)
+Theorem is_minsep_sound : forall g x y Z I R,
+  (U g = [] \/ ancestral_und g) -> In x (V g) -> x <> y -> incl R (V g) -> ~ In x R ->
+  is_minsep_model g x y Z I R = 1 ->
+  incl I Z /\ incl Z R /\ msep g [x] [y] Z.
+Proof. exact C11.Sound.is_minsep_sound. Qed.
+Print Assumptions is_minsep_sound.
+
+(* the anterior-restriction lemma: separation in the subgraph induced by a set S closed under parents and undirected
+   neighbours that contains x, y and Z implies separation in g (no arrowhead at an endpoint of an undirected edge) *)
+Theorem anterior_restrict : forall g S x y Z,
+  ancestral_und g -> ant_closed g S -> In x (V g) -> In x S -> In y S -> incl Z S ->
+  msep (restrict g S) [x] [y] Z -> msep g [x] [y] Z.
+Proof. exact C11.Sound.anterior_restrict. Qed.
+Print Assumptions anterior_restrict.
 
 (* unbounded (all graphs): the returned set contains I, lies inside R, avoids x and y, and passed the model of m_separated
    (C01) on the anterior graph of {x,y} ∪ I with the whole returned set as conditioning set *)
